@@ -3,6 +3,8 @@ import AslProofs.ArraySpecLemmas
 import AslProofs.ArrayQsort
 import AslProofs.ArrayQsortTotal
 import AslProofs.ArrayQsortSorted
+import AslProofs.ArrayOrders
+import AslProofs.ArrayCloneInd
 /-!
 # C01 — Array, Stack and Queue behave as a sequence for every operation history
 
@@ -18,11 +20,17 @@ no reference count, no storage).  Helper lemmas: `AslProofs/Array*.lean`.
   increases the capacity of a block whose `rc > 1`, produces on the model exactly the results and exactly the
   per-handle `(elements, rc)` views of the reference semantics, and never leaves live storage
   (`quicksort_total` discharges the in-bounds obligation of `sort`).
+* `array_refines_every_run`: the same for EVERY history as the driver runs it (`stepG`: an operation of the excluded
+  class is left out and answers `skip`) — no hypothesis on the history; `lifecycle` is stated for these runs.
 * `array_full_counterexample`: without that hypothesis the statement is false (known finding `shared-growth`).
 * `lifecycle`: live objects = total length of live blocks in every reachable state; all handles dropped ⇒ no
   block left and no live object.
 * `quicksort_total`, `quicksort_sorted_perm`: the Hoare-partition quicksort behind `sort()` stays inside its
   sequence, terminates, and returns the sorted permutation.
+* `driver_orders_strict_total`, `sort_spec`: the orders the driver sorts with are strict total orders; the value of
+  `sort` (ascending and descending) is the sorted permutation.
+* `clone_independent_history`, `clone_independent_model`: a clone is unaffected by every later history that does not
+  write through the clone's own handle — in the reference semantics and on the model (every driver run).
 * `clone_independent`, `stack_lifo`, `queue_fifo`: consequences inside the reference semantics.
 -/
 namespace C01
@@ -76,11 +84,25 @@ theorem array_refines_seq_partial [DecidableEq α] (E : Elem α) (hirr : ∀ x, 
     ∃ st', run E St.init ops = some (st', (specRun E Sp.init ops).2) ∧ Good st' (specRun E Sp.init ops).1 :=
   run_sim E hirr ops good_init hsafe
 
-/-- what the driver runs: an operation is skipped exactly when the guard holds, otherwise it is `step` -/
-theorem driver_step [DecidableEq α] (E : Elem α) (st : St α) (op : Op α) :
+/-- **Every history the check runs.**  The driver executes `stepG`: an operation for which `guard` holds (it would
+increase the capacity of a block whose `rc > 1`) is left out and answers `skip`, every other operation is `step`
+(`stepG E st op = if guard E st (normOp op) then some (st, skip) else step E st (normOp op)` holds by `rfl`).  For
+EVERY finite history — no hypothesis on it — the driver's run never leaves live storage and every call result and
+every handle's `(elements, rc())` equal the reference semantics run on the same history with the same operations
+left out. -/
+theorem array_refines_every_run [DecidableEq α] (E : Elem α) (hirr : ∀ x, E.lt x x = false) (ops : List (Op α)) :
+    ∃ st', runG E St.init ops = some (st', (specRunG E St.init Sp.init ops).2) ∧
+      Good st' (specRunG E St.init Sp.init ops).1 :=
+  runG_sim E hirr ops good_init
+
+example [DecidableEq α] (E : Elem α) (st : St α) (op : Op α) :
     stepG E st op = if guard E st (normOp op) = true then some (st, Res.skip) else step E st (normOp op) := rfl
 
-def intE : Elem Int := ⟨0, 4, fun a b => a < b, fun v => v⟩
+/-- the element types the driver instantiates satisfy the hypothesis -/
+example : (∀ x, (intElem 4).lt x x = false) ∧ (∀ x, (intElem 8).lt x x = false) ∧ (∀ x, strElem.lt x x = false) :=
+  ⟨(strictTotal_int 4).irr, (strictTotal_int 8).irr, strictTotal_bytes.irr⟩
+
+def intE : Elem Int := intElem 4
 
 /-- `a = []; b = a; a << 0 << 1 << 2 << 3`: the fourth append reallocates the block `b` still points to -/
 def sharedGrowth : List (Op Int) := [.new 0, .cp 1 0, .app 0 0, .app 0 1, .app 0 2, .app 0 3]
@@ -128,31 +150,25 @@ example : AllSafe intE St.init
 
 /-! ## lifecycle -/
 
-/-- In every state reachable by a history of the refinement theorem: the number of live element objects
-(constructor calls minus destructor calls) is the total length of the live blocks, every live block is
-referenced by as many handles as its `rc` says (at least one), and when the last handle is gone no block and
-no element object is left. -/
-theorem lifecycle [DecidableEq α] (E : Elem α) (hirr : ∀ x, E.lt x x = false) (ops : List (Op α))
+/-- In every state the driver can reach (any history, guarded operations left out): the number of live element
+objects (constructor calls minus destructor calls) is the total length of the live blocks, every live block is
+referenced by as many handles as its `rc` says (at least one), and when the last handle is gone no block and no
+element object is left. -/
+theorem lifecycle [DecidableEq α] (E : Elem α) (hirr : ∀ x, E.lt x x = false) (ops : List (Op α)) :
+    ∃ st' outs, runG E St.init ops = some (st', outs) ∧ st'.live = sumN st'.blocks ∧
+      (∀ (b : Nat) (r : Raw α), st'.blocks[b]? = some (some r) → r.rc = st'.hs.count (some b) ∧ 0 < r.rc) ∧
+      ((∀ slot, st'.occ slot = false) → st'.live = 0 ∧ ∀ (b : Nat) (r : Raw α), st'.blocks[b]? ≠ some (some r)) := by
+  obtain ⟨st', hrun, hg⟩ := array_refines_every_run E hirr ops
+  exact ⟨st', _, hrun, good_lifecycle hg⟩
+
+/-- the same for the unguarded run under the hypothesis of `array_refines_seq_partial` -/
+theorem lifecycle_unguarded [DecidableEq α] (E : Elem α) (hirr : ∀ x, E.lt x x = false) (ops : List (Op α))
     (hsafe : AllSafe E St.init ops) :
     ∃ st' outs, run E St.init ops = some (st', outs) ∧ st'.live = sumN st'.blocks ∧
       (∀ (b : Nat) (r : Raw α), st'.blocks[b]? = some (some r) → r.rc = st'.hs.count (some b) ∧ 0 < r.rc) ∧
       ((∀ slot, st'.occ slot = false) → st'.live = 0 ∧ ∀ (b : Nat) (r : Raw α), st'.blocks[b]? ≠ some (some r)) := by
   obtain ⟨st', hrun, hg⟩ := array_refines_seq_partial E hirr ops hsafe
-  obtain ⟨f, hf⟩ := hg.sim
-  have hblk : ∀ (b : Nat) (r : Raw α), st'.blocks[b]? = some (some r) → r.rc = st'.hs.count (some b) ∧ 0 < r.rc := by
-    intro b r hb
-    obtain ⟨_, _, _, _, _, _, h5, h6⟩ := hf.blk b r hb
-    exact ⟨h5, h6⟩
-  refine ⟨st', _, hrun, hf.sum, hblk, ?_⟩
-  intro hall
-  have hnone : ∀ (b : Nat) (r : Raw α), st'.blocks[b]? ≠ some (some r) := by
-    intro b r hb
-    obtain ⟨h5, h6⟩ := hblk b r hb
-    have hpos : 0 < st'.hs.count (some b) := by omega
-    obtain ⟨i, hi, hget⟩ := List.getElem_of_mem (List.count_pos_iff.mp hpos)
-    have hocc : st'.occ i = true := (occ_iff st' i).mpr ⟨b, by rw [List.getElem?_eq_getElem hi, hget]⟩
-    rw [hall i] at hocc; cases hocc
-  exact ⟨by rw [hf.sum, sumN_eq_zero _ hnone], hnone⟩
+  exact ⟨st', _, hrun, good_lifecycle hg⟩
 
 /-! ## `sort()` : the Hoare-partition quicksort of foreach1.h -/
 
@@ -178,6 +194,34 @@ theorem quicksort_sorted_perm [DecidableEq α] (lt : α → α → Bool) (hst : 
 /-- the hypothesis is satisfiable: `<` on the integers (the order of `Array<int>` and of the counted type) -/
 example : StrictTotal (fun a b : Int => decide (a < b)) :=
   ⟨fun a => by simp, fun a b c h1 h2 => by simp at *; omega, fun a b => by simp; omega⟩
+
+/-- the comparisons the driver sorts with are strict total orders: `<` of `int` and of the counted payload,
+`String::operator<` (`strcmp` on NUL-free bytes), and with each its descending comparator (`sort(Less)`) -/
+theorem driver_orders_strict_total :
+    StrictTotal (intElem 4).lt ∧ StrictTotal (intElem 8).lt ∧ StrictTotal strElem.lt ∧
+    StrictTotal (fun a b => (intElem 4).lt b a) ∧ StrictTotal (fun a b => strElem.lt b a) :=
+  ⟨strictTotal_int 4, strictTotal_int 8, strictTotal_bytes, (strictTotal_int 4).flip, strictTotal_bytes.flip⟩
+
+/-- **the value of `a.sort()` / `a.sort(descending)`** in the reference semantics: a permutation of the elements of
+`a`, in non-decreasing resp. non-increasing order (for every element type with a strict total `<`) -/
+theorem sort_spec [DecidableEq α] (E : Elem α) (hst : StrictTotal E.lt) (sp : Sp α) (hwf : SpWf sp) (h : Nat)
+    (ho : sp.occ h = true) (desc : Bool) :
+    ((specStep E sp (.sort h desc)).1.get h).Perm (sp.get h) ∧
+    ∀ (i j : Nat) (x y : α), i < j → ((specStep E sp (.sort h desc)).1.get h)[i]? = some x →
+      ((specStep E sp (.sort h desc)).1.get h)[j]? = some y → (if desc then E.lt x y else E.lt y x) = false := by
+  have hst' : StrictTotal (if desc then fun a b => E.lt b a else E.lt) := by
+    cases desc
+    · exact hst
+    · exact hst.flip
+  obtain ⟨l', hl', hperm, hsorted⟩ := quicksort_sorted_perm _ hst' (sp.get h)
+  have hget : (specStep E sp (.sort h desc)).1.get h = l' := by
+    simp only [specStep, ho, if_true]
+    rw [get_sMut_self hwf ho, hl']; rfl
+  rw [hget]
+  refine ⟨hperm, ?_⟩
+  intro i j x y hij hx hy
+  have := hsorted i j x y hij hx hy
+  cases desc <;> simpa using this
 
 /-! ## consequences inside the reference semantics (inherited by the model through `array_refines_seq_partial`:
 every reachable model state is `Good st sp`, and `Good.spwf` gives the hypotheses used here) -/
@@ -206,6 +250,43 @@ theorem clone_independent (sp : Sp α) (hwf : SpWf sp) (hlen : sp.hs.length = 8)
     show (sp'.cells.set c (F (sp'.cells.getD c []))).getD c [] = _
     rw [List.getD_eq_getElem?_getD, List.getElem?_set_self (by omega), h4 c hclt, ← get_of_slot hc]; rfl
 
+
+/-- **A clone is unaffected by every later history** (reference semantics): after `t = h.clone()`, whatever finite
+history follows — through any handles, with any operations left out by the driver's exclusion — as long as no
+operation writes through slot `t` itself, copies handle `t` or assigns to/from it (`writesTo`; reading through `t`
+is allowed), slot `t` still shows the elements `h` had when it was cloned. -/
+theorem clone_independent_history [DecidableEq α] (E : Elem α) (sp : Sp α) (hwf : SpWf sp) (hlen : sp.hs.length = 8)
+    (hT0 : sp.hs[T0]? = some none) (t h : Nat) (ht : t < NS) (ops : List (Op α))
+    (hops : ∀ op ∈ ops, writesTo t (normOp op) = false) (st : St α) :
+    (specRun E (sProduce sp t (sp.get h)) ops).1.get t = sp.get h ∧
+    (specRunG E st (sProduce sp t (sp.get h)) ops).1.get t = sp.get h := by
+  have hT : T0 ≠ t := by unfold NS at ht; unfold T0; omega
+  have hi := iso_after_clone hwf hlen hT0 ht (sp.get h)
+  exact ⟨(specRun_iso E hT ops _ hi hops).get, (specRunG_iso E hT ops st _ hi hops).get⟩
+
+/-- the same on the model, for every run of the driver: clone `h` into `t`, then run any history that does not write
+through `t`; slot `t` of the model still holds exactly the elements `h` had -/
+theorem clone_independent_model [DecidableEq α] (E : Elem α) (hirr : ∀ x, E.lt x x = false) {st : St α} {sp : Sp α}
+    (hg : Good st sp) (t h : Nat) (ht : t < NS) (ho : st.occ h = true) (ops : List (Op α))
+    (hops : ∀ op ∈ ops, writesTo t (normOp op) = false) :
+    ∃ l st1 st2 outs rc, st.elemsOf h = some l ∧ step E st (.clone t h) = some (st1, Res.ok) ∧
+      runG E st1 ops = some (st2, outs) ∧ st2.view t = some (some (l, rc)) := by
+  obtain ⟨f, hf⟩ := hg.sim
+  obtain ⟨_, _, _, _, _, _, _, hel⟩ := read_sim hf ho
+  have hspo : sp.occ h = true := by rw [hg.sim.occ_eq]; exact ho
+  obtain ⟨st1, h1, hg1⟩ := step_clone E hg t h ht
+  have hsp1 : (specStep E sp (.clone t h)).1 = sProduce sp t (sp.get h) := by simp [specStep, hspo]
+  have hr1 : (specStep E sp (.clone t h)).2 = Res.ok := by simp [specStep, hspo]
+  rw [hsp1] at hg1; rw [hr1] at h1
+  obtain ⟨st2, h2, hg2⟩ := runG_sim E hirr ops hg1
+  have hT : T0 ≠ t := by unfold NS at ht; unfold T0; omega
+  obtain ⟨hwf, hlen⟩ := hg.spwf
+  have hT0 : sp.hs[T0]? = some none := by rw [hf.hs_map, List.getElem?_map, hg.t0]; rfl
+  have hi := specRunG_iso E hT ops st1 _ (iso_after_clone hwf hlen hT0 ht (sp.get h)) hops
+  refine ⟨sp.get h, st1, st2, _, (specRunG E st1 (sProduce sp t (sp.get h)) ops).1.rc t, hel, h1, h2, ?_⟩
+  rw [view_sim hg2 t]
+  unfold Sp.view
+  rw [hi.occ, if_pos rfl, hi.get]
 
 /-- **Stack is LIFO** (reference semantics): `push(v)` then `popget()` returns `v` and restores the sequence -/
 theorem stack_lifo [DecidableEq α] (E : Elem α) (sp : Sp α) (hwf : SpWf sp) (h : Nat) (ho : sp.occ h = true) (v : α) :
